@@ -74,7 +74,7 @@ func init() {
 				Bounds: "20 expression shapes (NOT/AND/OR/THEN, depth<=3) over data/tag leaves; payload of `events` symbolic (direction, byte) events; tag truth values symbolic"},
 			{Pkg: qp, Func: "ZZ_C03_Number", Solver: "cvc5", Quick: tier(map[string]int{"numfams": 1, "numshapes": 8}), Thorough: tier(map[string]int{"numfams": 2, "numshapes": 8}),
 				Bounds: "shapes over id/port/bytes leaves (single, range, open ranges, list) with symbolic 20-bit literals; stream attributes symbolic"},
-			{Pkg: qp, Func: "ZZ_C03_Arith", Solver: "cvc5", Quick: tier(map[string]int{"arithparts": 2, "arithshapes": 2}), Thorough: tier(map[string]int{"arithparts": 3, "arithshapes": 3}),
+			{Pkg: qp, Func: "ZZ_C03_Arith", Solver: "cvc5", Quick: tier(map[string]int{"arithparts": 2, "arithshapes": 2}), Thorough: tier(map[string]int{"arithparts": 3, "arithshapes": 2}),
 				Bounds: "number filters key:<sum>, key:<sum>:, key::<sum> over cport/cbytes/sbytes whose sum has 1..arithparts signed parts (one symbolic literal 0..63 per part or one of the stream's own attributes); plain, negated, two filters together; stream attributes symbolic"},
 			{Pkg: qp, Func: "ZZ_C03_Mixed", Solver: "cvc5", Quick: tier(map[string]int{"mixfams": 6, "mixshapes": 6, "events": 2, "numforms": 2, "hostkeys": 1, "hostmasks": 2, "timeforms": 1}), Thorough: tier(map[string]int{"mixfams": 9, "mixshapes": 8, "events": 2, "numforms": 3, "hostkeys": 3, "hostmasks": 3}),
 				Bounds: "one leaf of each kind (number, tag, data, host/mask, ftime/ltime/time with relative durations) against each other"},
@@ -133,13 +133,13 @@ func init() {
 			{Pkg: cv, Func: "ZZ_C15_VarBytes", Quick: tier(map[string]int{"bytes": 4}), Thorough: tier(map[string]int{"bytes": 6}), Bounds: "every byte string of 0..bytes symbolic bytes"},
 			{Pkg: cv, Func: "ZZ_C15_String", Quick: tier(map[string]int{"bytes": 3}), Thorough: tier(map[string]int{"bytes": 5})},
 			{Pkg: cv, Func: "ZZ_C15_Truncated", Quick: tier(nil)},
-			{Pkg: cv, Func: "ZZ_C15_Cache", Desc: "rich chunk lists, 2 operations", Quick: tier(map[string]int{"ops": 2, "chunks": 2, "chunklen": 2, "ctypes": 2, "dts": 1}), Thorough: tier(map[string]int{"ops": 2, "chunks": 2, "chunklen": 2, "ctypes": 3, "dts": 3}),
+			{Pkg: cv, Func: "ZZ_C15_Cache", Desc: "rich chunk lists, 2 operations", Quick: tier(map[string]int{"ops": 2, "chunks": 2, "chunklen": 2, "ctypes": 2, "dts": 1}), Thorough: tier(map[string]int{"ops": 2, "chunks": 2, "chunklen": 2, "ctypes": 3, "dts": 1}),
 				Bounds: "histories of `ops` operations from {store, invalidate, reset, close+reopen} over 2 stream ids; chunk lists of 1..chunks chunks (direction, length 1..chunklen symbolic bytes, content type, time offset chosen)"},
 			{Pkg: cv, Func: "ZZ_C15_Cache", Desc: "thin chunk lists, 4 operations", Quick: tier(map[string]int{"ops": 4, "chunks": 1, "chunklen": 1, "ctypes": 1, "dts": 1, "forcecompaction": 1}), Thorough: tier(map[string]int{"ops": 5, "chunks": 1, "chunklen": 1, "ctypes": 1, "dts": 1, "forcecompaction": 1}),
 				Bounds: "histories of 4 (5) operations incl. a store with forced in-session compaction (trigger counter raised artificially, state otherwise real)"},
 			{Pkg: cv, Func: "ZZ_C15_Cache", Desc: "chunk lists that may be empty, 3 operations", Quick: tier(map[string]int{"ops": 3, "chunks": 1, "chunklen": 1, "ctypes": 1, "dts": 1, "emptylist": 1}), Thorough: tier(map[string]int{"ops": 4, "chunks": 1, "chunklen": 1, "ctypes": 1, "dts": 1, "emptylist": 1, "forcecompaction": 1}),
 				Bounds: "as above with chunk lists of 0..1 chunks: an empty converter output is stored, replaces older output and survives a reopen"},
-			{Pkg: cv, Func: "ZZ_C15_Cut", Quick: tier(map[string]int{"chunks": 1, "chunklen": 2, "ctypes": 2, "dts": 2}), Thorough: tier(map[string]int{"chunks": 2, "chunklen": 2, "ctypes": 3, "dts": 3}),
+			{Pkg: cv, Func: "ZZ_C15_Cut", Quick: tier(map[string]int{"chunks": 1, "chunklen": 2, "ctypes": 2, "dts": 2}), Thorough: tier(map[string]int{"chunks": 2, "chunklen": 2, "ctypes": 2, "dts": 2}),
 				Bounds: "two records, the file cut at every byte position inside the second record"},
 			{Pkg: cv, Func: "ZZ_C15_KF_InvalidateReopen", Quick: tier(nil), Desc: "witness of a known finding"},
 		},
@@ -159,7 +159,7 @@ func init() {
 		Harnesses: []HarnessSpec{
 			{Pkg: ix, Func: "ZZ_C01_HostGroup", Quick: tier(map[string]int{"hosts": 2}), Thorough: tier(map[string]int{"hosts": 3}),
 				Bounds: "one step add(x);pop from an arbitrary valid host group (hostSize 4 or 16, 0..hosts distinct hosts, all bytes symbolic)"},
-			{Pkg: ix, Func: "ZZ_C01_RoundTrip", Desc: "one stream, up to 3 packets", Quick: tier(P(1, 1, 3, 1, 1, 1, 2, 2, 1, 2, 1)), Thorough: tier(P(1, 1, 3, 2, 2, 1, 3, 3, 2, 2, 2)),
+			{Pkg: ix, Func: "ZZ_C01_RoundTrip", Desc: "one stream, up to 3 packets", Quick: tier(P(1, 1, 3, 1, 1, 1, 2, 2, 1, 2, 1)), Thorough: tier(P(1, 1, 3, 2, 1, 1, 2, 2, 2, 2, 1)),
 				Bounds: "write+Finalize+NewReader+read back: ids, ports, addresses (v4/v6), protocol flag, payload bytes, packet-index steps symbolic; packet count, directions, payload lengths 0..2, start time, packet-index base (incl. >= 2^32) enumerated"},
 			{Pkg: ix, Func: "ZZ_C01_RoundTrip", Desc: "one stream, packet timing variants", Quick: tier(P(1, 1, 2, 1, 4, 1, 3, 1, 1, 1, 1)), Thorough: tier(P(1, 1, 3, 1, 4, 2, 3, 1, 1, 1, 1)),
 				Bounds: "gaps of 1us, 0, 30ms, 2s between packets"},
@@ -185,10 +185,10 @@ func init() {
 	}
 	registry["C07"] = CheckSpec{Property: "C07",
 		Harnesses: []HarnessSpec{
-			{Pkg: ix, Func: "ZZ_C07_Merge", Desc: "two files, one stream each, overlapping or distinct ids", Quick: tier(M(1, 1, 1, 1, 1, 2, 1, 2, 1)), Thorough: tier(M(1, 2, 1, 1, 2, 3, 2, 3, 1)),
+			{Pkg: ix, Func: "ZZ_C07_Merge", Desc: "two files, one stream each, overlapping or distinct ids", Quick: tier(M(1, 1, 1, 1, 1, 2, 1, 2, 1)), Thorough: tier(M(1, 1, 1, 1, 2, 3, 1, 3, 1)),
 				Bounds: "input files written by the real writer; stream ids from a 2..3 element domain so overlap / shadowing is enumerated; addresses, ports, payload bytes symbolic; reference seconds of the files differ via start offsets; merged suffix enumerated"},
-			{Pkg: ix, Func: "ZZ_C07_Merge", Desc: "two files, up to two streams each", Quick: tier(M(2, 1, 0, 1, 1, 1, 1, 3, 1, 1, 1, 1)), Thorough: tier(M(2, 1, 1, 1, 1, 1, 1, 3, 1, 1, 2, 1))},
-			{Pkg: ix, Func: "ZZ_C07_Merge", Desc: "two files, two streams each, first-packet times earlier/later (time re-basing)", Quick: tier(M(2, 1, 0, 1, 1, 3, 1, 2, 1, 1, 1, 1, 1)), Thorough: tier(M(2, 1, 1, 1, 1, 3, 1, 3, 1, 1, 1, 1, 1))},
+			{Pkg: ix, Func: "ZZ_C07_Merge", Desc: "two files, up to two streams each", Quick: tier(M(2, 1, 0, 1, 1, 1, 1, 3, 1, 1, 1, 1)), Thorough: tier(M(2, 1, 1, 1, 1, 1, 1, 3, 1, 1, 1, 1))},
+			{Pkg: ix, Func: "ZZ_C07_Merge", Desc: "two files, two streams each, first-packet times earlier/later (time re-basing)", Quick: tier(M(2, 1, 0, 1, 1, 3, 1, 2, 1, 1, 1, 1, 1)), Thorough: tier(M(2, 1, 0, 1, 1, 3, 1, 3, 1, 1, 1, 1, 1))},
 			{Pkg: ix, Func: "ZZ_C07_Merge", Desc: "three files, suffix of 2 or 3 merged", Quick: tier(M(1, 1, 0, 1, 1, 1, 1, 2, 2, 1)), Thorough: tier(M(1, 1, 1, 1, 1, 2, 1, 3, 2, 1))},
 			{Pkg: ix, Func: "ZZ_C07_Merge", Desc: "three files, the merge result merged again with the older file", Quick: tier(func() map[string]int { m := M(1, 1, 0, 1, 1, 1, 1, 2, 2, 1); m["remerge"] = 1; return m }()),
 				Bounds: "as the three-file entry; when the two newer files were merged, the result and the older file are merged again: one version per id, every id still resolves to its newest version"},
@@ -209,7 +209,7 @@ func init() {
 	names := []string{"id range", "ltime lower bound", "ltime upper bound", "ftime lower bound", "cport equality", "id range OR cport bound (lookup + no lookup)", "cbytes bound", "tag", "sport equality AND id bound", "time: some packet in range"}
 	for f, n := range names {
 		c02 = append(c02, HarnessSpec{Pkg: ix, Func: "ZZ_C02_Search", Solver: "cvc5", Desc: "query form: " + n,
-			Quick: tier(S(f, 1, []int{2, 3, 3, 3, 3, 2, 3, 3, 3, 2}[f], []int{2, 2, 2, 2, 2, 1, 2, 2, 2, 2}[f], []int{1, 2, 2, 2, 2, 1, 2, 2, 2, 1}[f], 1, 2)), Thorough: tier(S(f, 1, 7, 4, 2, 2, 2)),
+			Quick: tier(S(f, 1, []int{2, 3, 3, 3, 3, 2, 3, 3, 3, 2}[f], []int{2, 2, 2, 2, 2, 1, 2, 2, 2, 2}[f], []int{1, 2, 2, 2, 2, 1, 2, 2, 2, 1}[f], 1, 2)), Thorough: tier(S(f, 1, 7, 4, 2, 1, 2)),
 			Bounds: "SearchStreams over 1..2 index files (4 visible streams, one id shadowed by the newer file); query thresholds symbolic; sort key list, limit, skip, id restriction (symbolic allow bits) enumerated"})
 	}
 	c02 = append(c02, HarnessSpec{Pkg: ix, Func: "ZZ_C02_Search", Solver: "cvc5", Desc: "multi-key sorts whose first key ties",
